@@ -27,17 +27,18 @@ import (
 )
 
 type c03param struct {
-	Scn     string `json:"scn"`
-	Parts   []int  `json:"parts"`            // sizes of batches 0..n-1 of the first stream
-	Perm    []int  `json:"perm"`             // arrival order of the batch numbers
-	Parts2  []int  `json:"parts2,omitempty"` // second stream (concat, pool, pairto)
-	Perm2   []int  `json:"perm2,omitempty"`  // arrival order of the second stream (default: in order)
-	Workers int    `json:"workers,omitempty"`
-	Size    int    `json:"size,omitempty"`
-	Cfg     []int  `json:"cfg,omitempty"`     // fragments-len: minsize, length, overlap, length of the first record
-	Choices []int  `json:"choices,omitempty"` // schedule (replay)
-	Policy  int    `json:"policy"`
-	Bound   int    `json:"preemption_bound"`
+	Scn       string   `json:"scn"`
+	Parts     []int    `json:"parts"`            // sizes of batches 0..n-1 of the first stream
+	Perm      []int    `json:"perm"`             // arrival order of the batch numbers
+	Parts2    []int    `json:"parts2,omitempty"` // second stream (concat, pool, pairto)
+	Perm2     []int    `json:"perm2,omitempty"`  // arrival order of the second stream (default: in order)
+	Workers   int      `json:"workers,omitempty"`
+	Size      int      `json:"size,omitempty"`
+	Cfg       []int    `json:"cfg,omitempty"`     // fragments-len: minsize, length, overlap, length of the first record
+	Choices   []int    `json:"choices,omitempty"` // schedule (replay)
+	Policy    int      `json:"policy"`
+	Bound     int      `json:"preemption_bound"`
+	Conflicts []string `json:"conflicts,omitempty"` // racy-access sites that were scheduling points (replay)
 }
 
 type c03batch struct {
@@ -1217,6 +1218,7 @@ func c03run(r *verifkit.Result, p c03param, bound int, mode string, maxExec int6
 		}
 		q := p
 		q.Choices = v.Choices
+		q.Conflicts = v.Conflicts
 		q.Bound = bound
 		r.Violate("obiiter/"+p.Scn+"/"+class+sub, fmt.Sprintf("%s parts=%v arrival=%v parts2=%v workers=%d size=%d cfg=%v: %s [schedule=%v]",
 			p.Scn, p.Parts, p.Perm, fmt.Sprint(p.Parts2, p.Perm2), p.Workers, p.Size, p.Cfg, parts[1], v.Choices), q)
@@ -1235,8 +1237,8 @@ func TestVerifC03A(t *testing.T) {
 		if err := json.Unmarshal(rc, &p); err != nil {
 			t.Fatal(err)
 		}
-		x := vsched.RunOncePolicy(p.Policy, p.Choices, 4000, nil, c03reset, func(x *vsched.Exec) { x.Obs = c03body(p) })
-		y := vsched.RunOncePolicy(p.Policy, p.Choices, 4000, nil, c03reset, func(x *vsched.Exec) { x.Obs = c03body(p) })
+		x := vsched.RunOncePolicy(p.Policy, p.Choices, 4000, vsched.ConflictSet(p.Conflicts), c03reset, func(x *vsched.Exec) { x.Obs = c03body(p) })
+		y := vsched.RunOncePolicy(p.Policy, p.Choices, 4000, vsched.ConflictSet(p.Conflicts), c03reset, func(x *vsched.Exec) { x.Obs = c03body(p) })
 		if x.TraceHash() != y.TraceHash() {
 			t.Fatal("replay is not deterministic")
 		}
